@@ -343,6 +343,7 @@ func matchVolume(mode string) []*matchCase {
 		vol(`[{"a":"?x"},{"a":"?y"}]`, objs(n, map[int]interface{}{n - 1: a1}), none())
 		vol(`[{"a":"?x"},{"a":"?y"}]`, objs(n, map[int]interface{}{3: a1, n - 1: a2}), none())
 		vol(`[{"a":"?x","want":true}]`, objs(n, map[int]interface{}{n - 2: a2, 1: a1}), none())
+		acc[len(acc)-1].Planted = map[string]interface{}{"?x": 2.0} // the embedding that must be found (C02)
 		vol(`[{"a":"?x"},"?rest"]`, append(objs(n, map[int]interface{}{n - 1: a1}), "tail"), none())
 		vol(`{"l":["?x"]}`, map[string]interface{}{"l": strs(n)}, none())
 		vol(`["?x"]`, strs(n), map[string]interface{}{"?x": fmt.Sprintf("s%d", n-1)})
